@@ -241,6 +241,36 @@ pub fn replay(args: &[String]) -> i32 {
             }
         }
     }
+    // ... and for results whose TOTAL is not ordered although every single result is (no NaN among the results,
+    // NaN as their sum: inf + -inf): an individual compares as its total does - against another individual, a
+    // copy of itself (equal results!) and itself
+    {
+        let vecs: [&[f64]; 6] = [&[f64::INFINITY, 1.0, f64::NEG_INFINITY], &[f64::MAX, f64::MAX, f64::NEG_INFINITY],
+                                 &[1.0, 2.0], &[3.0], &[f64::NEG_INFINITY, f64::INFINITY], &[f64::INFINITY, 1.0]];
+        macro_rules! unordered {
+            ($kind:expr, $ctor:expr, $R:ty) => {{
+                let inds: Vec<EcIndividual<u8, TestResults<$R>>> = vecs.iter().map(|v| EcIndividual::new(0, v.iter().map(|x| $ctor(*x)).collect())).collect();
+                let copies = inds.clone();
+                for (a, ia) in inds.iter().enumerate() {
+                    for (b, ib) in inds.iter().enumerate().chain(copies.iter().enumerate()) {
+                        n += 1;
+                        let want = ia.test_results.total_result.partial_cmp(&ib.test_results.total_result);
+                        let ob = guarded(|| (ia.partial_cmp(ib), ia.test_results.partial_cmp(&ib.test_results), ia < ib, ia <= ib, ia > ib, ia >= ib));
+                        let exp = (want, want, want == Some(Ordering::Less), matches!(want, Some(Ordering::Less | Ordering::Equal)),
+                                   want == Some(Ordering::Greater), matches!(want, Some(Ordering::Greater | Ordering::Equal)));
+                        if ob.as_ref().ok() != Some(&exp) {
+                            bad += 1;
+                            out.line(&json!({"kind": "mismatch", "case": {"case": {"t": "unordered_totals", "kind": $kind, "a": format!("{:?}", vecs[a]), "b": format!("{:?}", vecs[b]),
+                                             "same_object": std::ptr::eq(ia, ib)}, "exp": {"ind_results_lt_le_gt_ge": format!("{exp:?}")}},
+                                             "on": "EcIndividual<TestResults<f64>> whose total is NaN compared as its total", "observed": {"ind_results_lt_le_gt_ge": format!("{ob:?}")}}));
+                        }
+                    }
+                }
+            }};
+        }
+        unordered!("score", Score, Score<f64>);
+        unordered!("error", Error, Error<f64>);
+    }
     // ... and the bare results themselves: every comparison operator of Score<f64> and Error<f64> says
     // what partial_cmp says (a score orders as its value, an error the other way round; NaN is not
     // ordered against anything)
